@@ -1136,6 +1136,13 @@ func (s *Stage) putFileAway(file *finalFile) (targetPath string, err error) {
 	// Only change the state once the file has been successfully moved
 	s.toCache(file, stateFinalized)
 
+	if cmp, cmpErr := readLocalCompanion(file.path, file.name); cmpErr == nil && cmp != nil && cmp.Hash != file.hash {
+		// The companion already belongs to a newer version of this file that
+		// started to arrive while this one was held back: it is the record of
+		// the parts received of that version and has to stay
+		return
+	}
+
 	// Clean up the companion (no need to capture an error since it wouldn't
 	// be a deal-breaker anyway)
 	os.Remove(file.path + compExt)
